@@ -2,6 +2,7 @@ package c15
 
 import (
 	"fmt"
+	"net"
 	"testing"
 	"time"
 
@@ -133,7 +134,7 @@ func runSMFault(c SMFaultCase) *ev.Failure {
 
 var smFaultProp = ev.Register(&ev.Prop[SMFaultCase]{
 	ID: "C15", Name: "state-machine-handler",
-	Rule: "Server.Serve with an sm.StateMachine as handler on an in-memory listener, two connections: a healthy peer (handshake, 0..2 DWRs before and 1..2 after) and a faulty one that, with or without a handshake of its own, sends undecodable input (7 variants). " +
+	Rule: "Server.Serve with an sm.StateMachine as handler on an in-memory listener, two connections: a healthy peer (handshake, 0..2 DWRs before and 1..2 after) and a faulty one that, with or without a handshake of its own, sends undecodable input (9 variants). " +
 		"Demanded: the faulty transport is closed, the input is offered to the state machine's ErrorReports with that connection, the healthy peer's requests are all answered, Serve keeps running. Every case is non-trivial",
 	Gen: func(t *rapid.T) SMFaultCase {
 		return SMFaultCase{Variant: rapid.IntRange(0, garbageVariants-1).Draw(t, "variant"), Handshake: rapid.Bool().Draw(t, "handshake"),
@@ -151,7 +152,10 @@ func TestC15StateMachineHandler(t *testing.T) { smFaultProp.Check(t, 60, 2000) }
 // retry delay of the accept loop saturates, the loop itself goes on. Nine consecutive errors take
 // the back-off past its cap (5 ms doubling to 640 ms, then 1 s).
 type AcceptRunCase struct {
-	Errors int `json:"errors"`
+	Errors int  `json:"errors"`
+	Anon   bool `json:"anon,omitempty"`   // the listener's Addr() is nil
+	Kind   int  `json:"kind,omitempty"`   // which temporary error (acceptError)
+	Before bool `json:"before,omitempty"` // a connection is accepted and served before the errors, and must still be served after them
 }
 
 func runAcceptRun(c AcceptRunCase) *ev.Failure {
@@ -168,13 +172,35 @@ func runAcceptRun(c AcceptRunCase) *ev.Failure {
 			}
 		}
 	}()
-	lis := memnet.NewListener(c.Errors + 2)
+	lis := memnet.NewListener(c.Errors + 3)
+	var nl net.Listener = lis
+	if c.Anon {
+		nl = anonListener{lis}
+	}
 	srv := &diam.Server{Handler: mux, Dict: dict.Default}
-	served := make(chan error, 1)
-	go func() { served <- srv.Serve(lis) }()
+	served := serveGuarded(srv, nl)
 	defer lis.Close()
+	ended := func(err error) *ev.Failure {
+		f := serveEnded("accept-run:", err)
+		f.Detail = fmt.Sprintf("after %d consecutive temporary accept errors (kind %d, listener without address: %v): %s", c.Errors, c.Kind%acceptErrKinds, c.Anon, f.Detail)
+		return f
+	}
+	var old *memnet.Conn
+	if c.Before {
+		old = memnet.NewConn()
+		lis.Push(old)
+		defer func() { old.FeedEOF(); old.WaitClosed(2 * time.Second); old.Close() }()
+		old.Feed(smDWR(5))
+		if !old.WaitWrites(1, promptDeadline) || len(old.Writes()) == 0 {
+			return ev.Failf("accept-run:connection-not-served", "the first connection got no answer within %v", promptDeadline)
+		}
+	}
 	for i := 0; i < c.Errors; i++ {
-		lis.PushErr(&memnet.TempError{Msg: "scripted temporary accept error (too many open files)"})
+		if c.Kind%acceptErrKinds == 0 {
+			lis.PushErr(&memnet.TempError{Msg: "scripted temporary accept error (too many open files)"})
+		} else {
+			lis.PushErr(acceptError(c.Kind, nl.Addr()))
+		}
 	}
 	mc := memnet.NewConn()
 	lis.Push(mc)
@@ -183,14 +209,29 @@ func runAcceptRun(c AcceptRunCase) *ev.Failure {
 	if !mc.WaitWrites(1, 15*time.Second) || len(mc.Writes()) == 0 {
 		select {
 		case err := <-served:
-			return ev.Failf("accept-run:serve-returned", "after %d consecutive temporary accept errors Serve returned: %v", c.Errors, err)
+			return ended(err)
 		default:
 		}
 		return ev.Failf("accept-run:connection-not-served", "a connection accepted after %d consecutive temporary accept errors got no answer within 15 s", c.Errors)
 	}
+	if old != nil {
+		// the connection accepted before the errors is still served
+		old.Feed(smDWR(6))
+		if !old.WaitWrites(2, promptDeadline) || len(old.Writes()) < 2 {
+			select {
+			case err := <-served:
+				return ended(err)
+			default:
+			}
+			return ev.Failf("accept-run:connection-not-served", "a connection accepted before %d temporary accept errors got no answer within %v to a request sent after them", c.Errors, promptDeadline)
+		}
+		if closed, _ := old.Closed(); closed {
+			return ev.Failf("accept-run:healthy-conn-closed", "a connection accepted before %d temporary accept errors was closed", c.Errors)
+		}
+	}
 	select {
 	case err := <-served:
-		return ev.Failf("accept-run:serve-returned", "after %d consecutive temporary accept errors Serve returned: %v", c.Errors, err)
+		return ended(err)
 	default:
 	}
 	return nil
@@ -198,10 +239,10 @@ func runAcceptRun(c AcceptRunCase) *ev.Failure {
 
 var acceptRunProp = ev.Register(&ev.Prop[AcceptRunCase]{
 	ID: "C15", Name: "accept-error-run",
-	Rule: "Server.Serve on an in-memory listener that reports 1, 8, 9 or 11 consecutive temporary accept errors before the next connection; demanded: that connection is served (its request answered) and Serve has not returned. non-trivial = the run is long enough for the retry delay to reach its cap (9 or more)",
+	Rule: "Server.Serve on an in-memory listener that reports 1, 8, 9 or 11 consecutive temporary accept errors before the next connection; also short runs (1..3; thorough: 9) of each kind of temporary error (memnet's, a timeout, net.OpError with EMFILE / ECONNABORTED) on a listener with and without an address (Addr() nil), with and without a connection accepted before the errors; demanded: the next connection is served (its request answered), the earlier one is still served and open, and Serve has neither returned nor panicked. non-trivial = the run is long enough for the retry delay to reach its cap (9 or more), or the listener has no address, or the error is not memnet's plain one",
 	Run:  runAcceptRun,
 	Classify: func(c AcceptRunCase) (bool, []string) {
-		return c.Errors >= 9, []string{fmt.Sprintf("errors:%d", c.Errors)}
+		return c.Errors >= 9 || c.Anon || c.Kind%acceptErrKinds != 0, []string{fmt.Sprintf("errors:%d", c.Errors), fmt.Sprintf("anon-listener:%v", c.Anon), fmt.Sprintf("kind:%d", c.Kind%acceptErrKinds)}
 	},
 })
 
@@ -210,6 +251,25 @@ func TestC15AcceptErrorRun(t *testing.T) {
 		for _, n := range []int{1, 8, 9, 11} {
 			if !yield(AcceptRunCase{Errors: n}) {
 				return
+			}
+		}
+		for _, anon := range []bool{true, false} {
+			for kind := 0; kind < acceptErrKinds; kind++ {
+				for _, before := range []bool{false, true} {
+					if !anon && kind == 0 && !before {
+						continue // above
+					}
+					if !yield(AcceptRunCase{Errors: 1 + (kind+1)%3, Anon: anon, Kind: kind, Before: before}) {
+						return
+					}
+				}
+			}
+		}
+		if ev.Thorough() {
+			for kind := 0; kind < acceptErrKinds; kind++ {
+				if !yield(AcceptRunCase{Errors: 9, Anon: true, Kind: kind, Before: kind%2 == 0}) {
+					return
+				}
 			}
 		}
 	})
